@@ -33,6 +33,34 @@ var classes = []string{
 	"iface-non-pointer", "iface-ptr-to-non-iface", "iface-cb-no-ctx", "iface-cb-too-few", "iface-cb-too-many", "iface-cb-results", "iface-unknown-method",
 }
 
+// a method handed to Func as a method expression (the receiver is the first parameter): the same mistakes must be refused
+type mxT struct{ n int }
+
+var mxRan int64
+
+//go:noinline
+func (m *mxT) Add(a int, s string) int {
+	mxRan++
+	if m == nil {
+		return a + len(s)
+	}
+	return m.n + a + len(s)
+}
+
+var mxFn = &corpus.Fn{ID: -1, Name: "(*mxT).Add (method expression)", Fn: (*mxT).Add, Type: reflect.TypeOf((*mxT).Add),
+	Call: func(form int, a []reflect.Value) []reflect.Value {
+		recv, _ := a[0].Interface().(*mxT)
+		return []reflect.Value{reflect.ValueOf(recv.Add(int(a[1].Int()), a[2].String()))}
+	}}
+
+// origRan reads the run counter of a target's original body
+func origRan(fn *corpus.Fn) int64 {
+	if fn == mxFn {
+		return mxRan
+	}
+	return corpus.OrigRan[fn.ID]
+}
+
 func guard(f func()) (pv interface{}) {
 	defer func() { pv = recover() }()
 	f()
@@ -129,6 +157,10 @@ var img *vkit.TextImage
 func runMistake(ci interface{}, s *vkit.Stats) error {
 	c := ci.(*mistake)
 	fn := corpus.Fns[c.Fn%len(corpus.Fns)]
+	if c.Fn%7 == 3 && (strings.HasPrefix(c.Class, "cb-") || c.Class == "when-too-few" || strings.HasPrefix(c.Class, "ret")) {
+		fn = mxFn
+		s.Class("target-is-a-method-expression")
+	}
 	ft := fn.Type
 	b := mocker.Create()
 	defer func() { _ = guard(func() { b.Reset() }) }()
@@ -426,7 +458,7 @@ func runMistake(ci interface{}, s *vkit.Stats) error {
 	if d := img.Diff(); len(d) != len(diffBefore) {
 		return fmt.Errorf("%s: rejected, but the executable image changed: %s", what, img.Describe(d))
 	}
-	before := corpus.OrigRan[fn.ID]
+	before := origRan(fn)
 	args := make([]reflect.Value, ft.NumIn())
 	for i := range args {
 		args[i] = vkit.Value(ft.In(i), uint64(i)+2)
@@ -434,7 +466,7 @@ func runMistake(ci interface{}, s *vkit.Stats) error {
 	if pv := guard(func() { fn.Call(corpus.FormDirect, args) }); pv != nil {
 		return fmt.Errorf("%s: after the rejected call the target panics when called: %v", what, pv)
 	}
-	if corpus.OrigRan[fn.ID]-before != 1 {
+	if origRan(fn)-before != 1 {
 		return fmt.Errorf("%s: after the rejected call the target no longer runs its original body (left mocked)", what)
 	}
 	if methodBefore != nil {
